@@ -87,11 +87,13 @@ type c10Case struct {
 	K    int    `json:"fault_at"`
 	Kind string `json:"reader"`
 	Wrap bool   `json:"error_wraps_eof,omitempty"`
+	Byte bool   `json:"fault_at_is_byte_offset,omitempty"` // io.Reader only: K counts bytes (a fault inside a multi-byte character)
 }
 
 type c10Ref struct {
-	dump     string
-	consumed int // runes the fault-free parse consumes
+	dump          string
+	consumed      int // runes the fault-free parse consumes
+	consumedBytes int
 }
 
 func c10Judge(c c10Case, ref c10Ref) string {
@@ -107,8 +109,16 @@ func c10Judge(c c10Case, ref c10Ref) string {
 		fs = &faultScanner{rs: rs, k: c.K, err: sentinel}
 		src = fs
 	} else {
-		fr = &faultReader{b: []byte(c.Src), k: len(string(rs[:c.K])), err: sentinel}
+		kb := c.K
+		if !c.Byte {
+			kb = len(string(rs[:c.K]))
+		}
+		fr = &faultReader{b: []byte(c.Src), k: kb, err: sentinel}
 		src = fr
+	}
+	inside := c.K < ref.consumed
+	if c.Byte {
+		inside = c.K < ref.consumedBytes
 	}
 	var d string
 	var err error
@@ -130,7 +140,7 @@ func c10Judge(c c10Case, ref c10Ref) string {
 	switch {
 	case err == nil && delivered:
 		return fmt.Sprintf("ReadRune returned the sentinel error (reader failing from rune %d) but ParseCommands returns a nil error (%s)", c.K, d)
-	case err == nil && c.K < ref.consumed:
+	case err == nil && inside:
 		return fmt.Sprintf("the reader fails from rune %d, inside the %d runes of the command, yet ParseCommands returns a nil error (%s)", c.K, ref.consumed, d)
 	case err == nil && d != ref.dump:
 		return fmt.Sprintf("nil error with a result built from truncated input: %s instead of %s", d, ref.dump)
@@ -149,11 +159,25 @@ func c10Sentence(w *W, src string) {
 	if len(o.cmds) == 0 {
 		d = "[]"
 	}
-	ref := c10Ref{dump: d, consumed: len([]rune(src[:len(src)-o.rest]))}
+	ref := c10Ref{dump: d, consumed: len([]rune(src[:len(src)-o.rest])), consumedBytes: len(src) - o.rest}
 	w.Announce(src)
 	w.Count("states", 1)
 	w.Count("distinct_nontrivial", 1)
 	w.Sample(map[string]string{"source": src})
+	// io.Reader: byte offsets inside multi-byte characters (the reader fails with half a character delivered)
+	for kb := 1; kb < len(src); kb++ {
+		if utf8.RuneStart(src[kb]) {
+			continue
+		}
+		c := c10Case{Src: src, K: kb, Kind: "Reader", Byte: true}
+		w.Count("evaluations", 1)
+		w.Count("transitions", 1)
+		w.Count("faults_inside_a_character", 1)
+		w.Count("traces_validated_against_impl", 1)
+		if d := c10Judge(c, ref); d != "" {
+			w.Violation(c10Class(c, d), c, fmt.Sprintf("ParseCommands(%q) [io.Reader failing after %d bytes, inside a character]: %s", src, kb, d))
+		}
+	}
 	n := len([]rune(src))
 	for k := 0; k <= n; k++ {
 		for _, kind := range []string{"RuneScanner", "Reader", "RuneScanner/wraps-EOF"} {
@@ -168,7 +192,23 @@ func c10Sentence(w *W, src string) {
 	}
 }
 
-func c10Class(c c10Case, d string) string { return "" }
+// c10Class attributes one shape to a known finding: an io.Reader that fails with half of a multi-byte character
+// delivered, that character being the first of a parameter name directly after "${": bufio hands the orphaned byte
+// out as U+FFFD before it reports the error, and the lexer rejects U+FFFD as a name ("invalid parameter expansion")
+// without reading further.  Every other replacement of a read error stays a violation.
+func c10Class(c c10Case, d string) string {
+	if !c.Byte || c.Kind != "Reader" || !strings.Contains(d, "syntax error: invalid parameter expansion") {
+		return ""
+	}
+	k := c.K
+	for k > 0 && !utf8.RuneStart(c.Src[k]) {
+		k--
+	}
+	if strings.HasSuffix(c.Src[:k], "${") {
+		return "read-fault-inside-first-character-of-braced-parameter-name"
+	}
+	return ""
+}
 
 // c10Invalid: sentences the grammar rejects, and transient faults.  The statement fixes the error only
 // when the reader's failure is what stops the parse; for an ill-formed program a syntax error may come
@@ -245,6 +285,14 @@ func c10Run(w *W) {
 		c10Sentence(w, renderTight(ss).src)
 		c10Invalid(w, render(ss).src, true) // the same sentence under a transient fault at every position
 	})
+	for _, n := range []int{1, 2, 3, 9, 10, 11, 17} {
+		if !w.Mine() || w.TimeUp() {
+			continue
+		}
+		for _, src := range repetitionSources(n) {
+			c10Sentence(w, src)
+		}
+	}
 	for _, src := range []string{"a \\\nb\n", "a 'q\nq' \"d\n$v\"\n", "cat <<E <<F <<-G\nx\nE\ny\nF\n\tz\n\tG\n", "a $(b <<E\nx\nE\n) `c d`\n", "a &&\n\n# c\nb\n", "case x in a) ;; esac"} {
 		if w.Mine() {
 			c10Sentence(w, src)
@@ -273,7 +321,7 @@ func init() {
 			if len(o.cmds) == 0 {
 				d = "[]"
 			}
-			if m := c10Judge(c, c10Ref{d, len([]rune(c.Src[:len(c.Src)-o.rest]))}); m != "" {
+			if m := c10Judge(c, c10Ref{d, len([]rune(c.Src[:len(c.Src)-o.rest])), len(c.Src) - o.rest}); m != "" {
 				return fmt.Errorf("%s", m)
 			}
 			return nil
